@@ -113,6 +113,16 @@ def impl_eval(case):
                     why = f'normal mode: check digit / validation pattern {normal!r} differs from Luhn {exp!r}'
                 elif opt != exp:
                     why = f'python -O: check digit / validation pattern {opt!r} differs from Luhn {exp!r}'
+                else:
+                    # the library's own "append the check digit": the input followed by that digit, whatever the input
+                    # looks like (a body that happens to validate already gets its digit like any other)
+                    from cardutil import card
+                    try:
+                        added = card.add_check_digit(s)
+                    except Exception as ex:  # noqa
+                        added = 'escape:' + type(ex).__name__
+                    if added != s + c:
+                        why = f'add_check_digit({s!r}) returned {added!r}, the number with its check digit is {s + c!r}'
         obs = normal if normal == opt else f'MODES-DIFFER normal={normal} opt={opt}'
         if normal != opt and why is None:
             why = 'validation behaves differently under python -O'
